@@ -13,8 +13,9 @@ level at which the Rust code works:
   macro loop and only at positions `>= next_pos`), the `FoundMacro::Defined` arm is `readDefined` + splice,
   and the `FoundMacro::User` arm hands the arguments and the substituted body to C12's `applyLoop` — the
   recursive calls of the Rust code pass `apply_defined = false`, i.e. they *are* `Macro.applyLoop`.
-  Termination: the tokens right of `next_pos` decrease; the two facts needed are tested at run time
-  (`Err.guard`, as in `Macro.applyLoop`; `Lemmas.CondFile` shows they cannot fire).
+  Termination: the tokens right of `next_pos` decrease; the facts needed are tested at run time
+  (`Err.guard`, as in `Macro.applyLoop`; a guard that fires is reported as `unsupported` by the driver —
+  none did in any correspondence run; that they cannot fire is not proved here).
 * text is flushed through `Macro.applyMacros` (`apply_defined = false`).
 * `condD` = `trim_whitespace` + `topLoop` + `condition_parser::parse` (whitespace filter, `toCTok`,
   `CondExpr.parseCond`).
@@ -261,9 +262,6 @@ def condD (defs : List Macro) (command : List PTok) : Except Err Bool :=
     | none => .error .failedToParseIfCondition
 
 /-! ## `preprocess_command` -/
-
-/-- `const MAX_INCLUDE_DEPTH` -/
-def maxIncludeDepth : Nat := 200
 
 structure FState where
   /-- `ConditionChain`, innermost level first; shared by all files -/
